@@ -2,5 +2,5 @@
 # run every mutant and behaviour-preserving variant of the given properties: tools/mutall.sh C14 C15 ...
 cd "$(dirname "$0")/.."
 for id in "$@"; do
-  ls fixtures/mutations/$id/*.patch fixtures/equivalent/$id/*.patch 2>/dev/null | xargs -P8 -I{} sh -c "python3 tools/mutest.py $id {} 2>&1 | grep -E '^(CAUGHT|MISSED|SILENT|FALSE-ALARM)'"
+  ls fixtures/mutations/$id/*.patch fixtures/equivalent/$id/*.patch 2>/dev/null | xargs -P8 -I{} sh -c "python3 tools/mutest.py $id {} 2>&1 | grep -E '^(CAUGHT|MISSED|SILENT|FALSE-ALARM|PATCH-FAILED)'"
 done
